@@ -294,8 +294,8 @@ def check_apply(case):
 @st.composite
 def sync_cases(draw):
     flavour = draw(st.sampled_from(["def", "async", "partial", "obj", "obj-awaitable", "def-mixed", "class",
-                                    "class-async-call", "method", "async-method", "lambda-coro", "attribute"]))
-    if flavour in ("def", "class", "class-async-call", "method", "attribute"):
+                                    "class-async-call", "method", "async-method", "lambda-coro", "attribute", "wrapped-facade"]))
+    if flavour in ("def", "class", "class-async-call", "method", "attribute", "wrapped-facade"):
         kinds = st.sampled_from(["plain", "raise"])
     elif flavour == "def-mixed":
         kinds = st.sampled_from(["plain", "coroutine", "object", "raise", "suspending", "futurelike",
@@ -384,7 +384,13 @@ def check_sync(case):
             return await coro_fn(arg)
 
     holder = Holder()
-    target = {"attribute": None, "class": Made, "class-async-call": MadeAsyncCall, "method": holder.method,
+    @functools.wraps(coro_fn)
+    def facade(arg):
+        """a synchronous front (blocking runner, result cache) of an async def: __wrapped__ points at a coroutine
+        function, the callable itself is an ordinary function returning a plain value"""
+        return plain_def(arg)
+
+    target = {"attribute": None, "wrapped-facade": facade, "class": Made, "class-async-call": MadeAsyncCall, "method": holder.method,
               "async-method": holder.amethod, "lambda-coro": lambda arg: coro_fn(arg),
               "def": plain_def, "def-mixed": plain_def, "async": coro_fn,
               "partial": functools.partial(coro_fn2, "x"), "obj": Obj(), "obj-awaitable": ObjAw()}[flavour]
